@@ -15,6 +15,14 @@ def make_cases(rng, tier, n):
             c["ops"] = [("commit", rng.choice("lc"), []), ("push", False, []), ("wipecache",), ("fetch", False, []), ("status", []),
                         ("clone", [b"workdir", b"workdir/inner"] if c.get("cwd") else []), ("checkout", rng.choice("lc"), False, [])]
             c["hist_info"] = dict(edits_between=False)
+        elif i % 20 == 13:
+            # the same transfer with ':' and blanks in the absolute paths of project and cache (what looks like an rclone
+            # remote is a local directory), both cache placements
+            c["oddpath"] = True
+            c["cache"] = "abs" if (i // 20) % 2 == 0 else "rel"
+            c["ops"] = [("commit", rng.choice("lc"), []), ("push", False, []), ("wipecache",), ("fetch", False, []), ("status", []),
+                        ("clone", [b"workdir", b"workdir/inner"] if c.get("cwd") else []), ("checkout", rng.choice("lc"), False, [])]
+            c["hist_info"] = dict(edits_between=False)
         else:
             gen.gen_history(rng, c, rng.randrange(5, 12 if tier == "quick" else 40))
         if c["hist_info"]["edits_between"]:
